@@ -610,6 +610,100 @@ pub fn run(ctx: &Ctx) -> Rep {
     let (r4b7, x4b7) = merge_states(s4b7);
     rep.merge(r4b7);
 
+    let x4c_all: Vec<X>;
+    // ---- (4c) a complete strong hand in every five-slot row, the remaining slots bad ----------------------------
+    // Six- and seven-slot hands in which five slots hold a straight flush, four of a kind, a full house (or a
+    // sample of the weaker categories) - in every choice of the five slots and four orders - while the one or two
+    // remaining slots hold a blank, a duplicate, a non-card word, a flagged or corrupted card (or, for seven
+    // slots, one good card and one bad one, or the same good card twice). A validated ranking that stops looking
+    // once it has found an unbeatable hand, or validates only the slots it ranked, reports such a hand as valid.
+    {
+        let mut hands: Vec<[u8; 5]> = Vec::new();
+        for suit in 0..4u8 {
+            for top in 3..13u8 {
+                // straight flushes, the wheel included (top = 3: 5-4-3-2-A)
+                let ranks: [u8; 5] = if top == 3 { [3, 2, 1, 0, 12] } else { [top, top - 1, top - 2, top - 3, top - 4] };
+                hands.push([model::idx(ranks[0], suit), model::idx(ranks[1], suit), model::idx(ranks[2], suit), model::idx(ranks[3], suit), model::idx(ranks[4], suit)]);
+            }
+        }
+        for q in 0..13u8 {
+            for k in 0..13u8 {
+                if k != q {
+                    hands.push([model::idx(q, 0), model::idx(q, 1), model::idx(q, 2), model::idx(q, 3), model::idx(k, (q + k) % 4)]);
+                    hands.push([model::idx(q, 0), model::idx(q, 2), model::idx(q, 3), model::idx(k, 1), model::idx(k, (q % 2) * 3)]); // full house (k suits 1 and 0/3)
+                }
+            }
+        }
+        let mut rng0 = Rng::new(seed, 0xC04_4C00);
+        for _ in 0..60 {
+            // weaker categories: seeded distinct cards
+            let mut h = [0u8; 5];
+            let mut k = 0;
+            while k < 5 {
+                let x = rng0.below(52) as u8;
+                if !h[..k].contains(&x) {
+                    h[k] = x;
+                    k += 1;
+                }
+            }
+            hands.push(h);
+        }
+        let hands: Vec<[u8; 5]> = if ctx.smoke() { hands.into_iter().step_by(97).collect() } else { hands };
+        let s4c = par_run(ctx, hands.len(), mk, |st, hi| {
+            let h = hands[hi];
+            let mut rng = Rng::new(seed, 0xC04_4C01 + hi as u64);
+            let hw: Vec<u32> = h.iter().map(|&i| model::word(i)).collect();
+            let mut other = rng.below(52) as u8;
+            while h.contains(&other) {
+                other = (other + 1) % 52;
+            }
+            let good = model::word(other);
+            let bads: [u32; 8] = [0, hw[0], hw[4], 0xFFFF_FFFF, good | (1 << 29), good ^ 1, (good & 0xFFFF_F000) | 0x0FFF, good & 0xFFFF_0FFF];
+            for n in [6usize, 7] {
+                for row in drive::slot_subsets(n, 5) {
+                    let rest: Vec<usize> = (0..n).filter(|s| !row.contains(&(*s as u8))).collect();
+                    for order in 0..4 {
+                        let mut cards = hw.clone();
+                        match order {
+                            0 => {}
+                            1 => cards.reverse(),
+                            _ => rng.shuffle(&mut cards),
+                        }
+                        let mut w = vec![0u32; n];
+                        for (k, &slot) in row.iter().enumerate() {
+                            w[slot as usize] = cards[k];
+                        }
+                        if n == 6 {
+                            for &b in &bads {
+                                w[rest[0]] = b;
+                                check_hand(st, &w);
+                            }
+                        } else {
+                            for &b in &bads {
+                                w[rest[0]] = good;
+                                w[rest[1]] = b;
+                                check_hand(st, &w);
+                                w[rest[0]] = b;
+                                w[rest[1]] = good;
+                                check_hand(st, &w);
+                                w[rest[1]] = bads[(rng.below(8)) as usize];
+                                check_hand(st, &w);
+                            }
+                            w[rest[0]] = good;
+                            w[rest[1]] = good;
+                            check_hand(st, &w);
+                        }
+                    }
+                }
+            }
+            st.rep.distinct += 1;
+            st.rep.add("strong_hands_in_every_row_with_bad_remaining_slots", 1);
+        });
+        let (r4c, x4c) = merge_states(s4c);
+        rep.merge(r4c);
+        x4c_all = x4c;
+    }
+
     // ---- (5) seeded card-or-blank and mixed hands of sizes 5..7 ---------------
     let n_rand = ctx.pick(2_000, 1_000_000, 10_000_000);
     let chunks = 64usize;
@@ -647,7 +741,7 @@ pub fn run(ctx: &Ctx) -> Rep {
     rep.merge(r5);
 
     let mut acc = mk();
-    for x in x1.into_iter().chain(x1b).chain(x1c).chain(x2).chain(x2b).chain(x2d).chain(x2c).chain(x4b6).chain(x4b7).chain(x3).chain(x4).chain(x5) {
+    for x in x1.into_iter().chain(x1b).chain(x1c).chain(x2).chain(x2b).chain(x2d).chain(x2c).chain(x4b6).chain(x4b7).chain(x4c_all).chain(x3).chain(x4).chain(x5) {
         for k in 0..8 {
             acc.valid[k] += x.valid[k];
             acc.invalid[k] += x.invalid[k];
